@@ -40,6 +40,12 @@ func (a *Analysis) CheckC12(rep *Report) {
 			}
 			got[r.Key] = r
 			want, inGold := gold[r.Key]
+			if r.KeyVal == nil && !inGold {
+				// a registration whose key is not a constant of the program (computed at start-up from other tables,
+				// say): which entries it makes – and which pinned ones it replaces – is not known
+				rep.Ob("T1-key-constant", k, false, rpos, fmt.Sprintf("key %s -> %s is not a discriminator of the pinned schema", r.Key, r.Type))
+				continue
+			}
 			if !rep.Ob("T1-key-in-schema", k, inGold, rpos, fmt.Sprintf("key %s -> %s is not a discriminator of the pinned schema", r.Key, r.Type)) {
 				// a key the pinned schema does not have (a message type added to the protocol): against the pinned schema it
 				// is an unregistered value that should be refused, so C12 (and C02) report it; the registration itself is
